@@ -267,6 +267,9 @@ def _local_refs(pkg, depth=0):
     return out
 
 
+LAST_SENT = []      # what the most recent oracle_session wrote, burst by burst (for the replay file)
+
+
 def _unboxes_to_tuple(pkg):
     """would `_unbox(pkg)` give an exact tuple (as far as the sender can tell from the package it wrote)"""
     if type(pkg) is not tuple or len(pkg) != 2 or type(pkg[0]) is not int:
@@ -317,6 +320,7 @@ def oracle_session(seed, index, n_bursts=None):
     import signal
     hw.ensure_canary_modules()
     r, _cfg, nb = session_case(seed, index, n_bursts)
+    del LAST_SENT[:]
     problems = []
     mods_before = set(sys.modules)
     old = signal.signal(signal.SIGALRM, _alarm)
@@ -340,6 +344,7 @@ def oracle_session(seed, index, n_bursts=None):
                 else:
                     maker = g.hostile_burst
                 msgs = maker()
+                LAST_SENT.append([(k, repr(m)[:300]) for k, m in msgs])
                 got_all = []
                 for kind, m in msgs:
                     if s.ended:
@@ -464,9 +469,7 @@ def oracle_search(ctx, corr, broken):
             if m2:
                 nb, msg = k, m2
                 break
-        _r, _cfg, full = session_case(seed, index, nb)
-        s, desc = run_case(seed, index, nb, force_default=True)
-        return dict(kind="history", seed=seed, index=index, n_bursts=nb, sent=desc), msg, sig
+        return dict(kind="history", seed=seed, index=index, n_bursts=nb, sent=[list(b) for b in LAST_SENT]), msg, sig
 
     for d in corr.disagreements[:100]:
         found = attempt(d["case"]["seed"], d["case"]["index"])
@@ -493,7 +496,7 @@ def replay(case):
         out["implementation"] = s.final_impl.split(" ; ")[-25:]
         out["model"] = hw.model_core(run_driver([s.final_model_line], exe="drv_handlers")[0]).split(" ; ")[-25:]
         out["agree"] = hw.model_core(run_driver([s.final_model_line], exe="drv_handlers")[0]) == s.final_impl
-    except rt.Unobservable as ex:
-        out["implementation"] = "unobservable: %s" % ex
+    except (rt.Unobservable, SessionHang) as ex:
+        out["implementation"] = "not comparable with the model: %s" % ex
     out["oracle"] = oracle_session(seed, index, nb) or "holds"
     return out
